@@ -16,6 +16,7 @@ pub mod c12;
 pub mod c16;
 pub mod c19;
 pub mod c20;
+pub mod cross;
 
 pub fn table() -> Vec<Prop> {
     vec![
@@ -34,5 +35,7 @@ pub fn table() -> Vec<Prop> {
         Prop { id: "C16", run: c16::run, replay: c16::replay },
         Prop { id: "C19", run: c19::run, replay: c19::replay },
         Prop { id: "C20", run: c20::run, replay: c20::replay },
+        // development aid (not a property, not in MANIFEST.json): every judge over every generator
+        Prop { id: "XJ", run: cross::run_all, replay: cross::replay },
     ]
 }
